@@ -293,15 +293,6 @@ func init() {
 					}
 					rep.Samples = append(rep.Samples, map[string]interface{}{"stack": cfg.String(), "pipelines": desc})
 				}
-				if out.Div != nil {
-					rep.Divergences = append(rep.Divergences, out.Div)
-					if len(rep.Divergences) > 3 {
-						rep.Distinct = len(distinct)
-						return
-					}
-					continue
-				}
-				rep.Validated++
 				for i, ob := range out.Obs {
 					if i >= len(pipes) || ob.Ending != "eof" {
 						continue
@@ -325,6 +316,15 @@ func init() {
 							Replay: map[string]interface{}{"stack": cfg.String(), "proto": proto, "pipeline": ds, "reply": canonN(2000, ob.Out), "driver_script": out.Script}})
 					}
 				}
+				if out.Div != nil {
+					rep.Divergences = append(rep.Divergences, out.Div)
+					if len(rep.Divergences) > 3 {
+						rep.Distinct = len(distinct)
+						return
+					}
+					continue
+				}
+				rep.Validated++
 			}
 		}
 		rep.Distinct = len(distinct)
